@@ -14,7 +14,7 @@ import (
 func requestHandlers(p *Prog, rv *Rendezvous) []*ssa.Function {
 	var out []*ssa.Function
 	for _, h := range rv.Handlers {
-		hit, _ := p.Reaches(h, func(f *ssa.Function) bool { return f == rv.Queue }, 3)
+		hit, _ := p.Reaches(h, func(f *ssa.Function) bool { return rv.Queues[f] }, 3)
 		if !hit {
 			// direct interface call on a DataSource-typed value
 			Instrs(h, func(in ssa.Instruction) {
